@@ -694,4 +694,6 @@ def run(ck, tier):
     from .. import ownership as _own2
     ck.rule('R9', 'no unsound memoisation (a caching decorator on a method, or on a function that returns a mutable container) in the modules this property rests on')
     ck.guard(_own2.rule_no_unsafe_memo, ck, cx, 'R9', ('pymodbus.datastore.context', 'pymodbus.datastore.store'), 'validate / getValues answer from a value cached before the block changed')
+    from .. import options as _opt
+    ck.guard(_opt.rule_options_read_at_construction, ck, cx, 'R9', ('pymodbus.datastore.context', 'pymodbus.datastore.store'), ('ZeroMode',), 'contexts address their blocks one off from the configured mode')
     return cx.idx
